@@ -1,5 +1,5 @@
 """C12 - exists, find_one, children and siblings agree with find"""
-from ..rules import search, memo, vocab, mutation
+from ..rules import search, memo, vocab, mutation, forward
 
 DECIDES = ("the delegation chain exists -> find_one(as_sid=False) -> first(find(...)) with no override and no other data path (R-DELEG); as_sid branches yield the same entry (R-ASSID); DataSid.exists / children / siblings delegate to FindInAll with self, self / '*', get_as(k).get_with(key=k, value='*'); a leaf has no children via conf.leaf_keys (R-DELEG, R-TBL); every do_find receives an unfolded list (R-UNFOLDALL); nothing on the read path is memoised or keeps state, so a created entity is seen (R-PUREMEMO, R-NOSTATE). Also: exists / find_one / children run the same unfolding pipeline (R-PIPE) and drop entries only for the named reasons (R-SKIPS); routing by type alone (R-FINDERROUTE).")
 DOES_NOT_DECIDE = 'membership for concrete data; on-disk ancestry'
@@ -17,4 +17,5 @@ def rules(ctx, tier):
         lambda: search.rule_skips(ctx),
         lambda: search.rule_finderroute(ctx),
         lambda: mutation.rule_mut(ctx),
+        lambda: forward.rule_fwd_assid(ctx),
     ]
